@@ -75,6 +75,15 @@ class Harness:
     def assume(self, f):
         self.ctx.assume(f)
 
+    def lemma_forall(self, name, f, sort=INT, base="q"):
+        """Prove f(c) for a fresh constant c (i.e. for all values), then assume it universally quantified."""
+        c = self.ctx.fresh(base, sort)
+        ob = self.ctx.prove(name, f(c), kind="lemma")
+        if ob.status == "unsat":
+            v = z3.Const(f"{base}!lemma", sort)
+            self.ctx.assumptions.append(z3.ForAll([v], f(v)))
+        return ob
+
     # symbolic inputs ---------------------------------------------------------------------
     def int(self, name):
         return self.ctx.fresh(name, INT)
